@@ -1104,6 +1104,118 @@ theorem Sparse.getItem_linear {S : Sparse α} {m : MArr α} (h : SRel S m) (hs :
       simp only [bind, Except.bind] at this ⊢
       exact this
 
+/-! ### linear-index writes on a 1-way sparse tensor -/
+
+/-- On a 1-way array an in-range linear index is the subscript: the two writes of the
+specification coincide. -/
+theorem MArr.write_lin_eq_subs (m : MArr α) (e : Nat) (hs : m.shape = [e]) (i : Int) (h0 : 0 ≤ i)
+    (h1 : i < (e : Int)) (rhs : Rhs α) : m.write (.lin i) rhs = m.write (.subs [[i.toNat]]) rhs := by
+  have hcells : MArr.cells [e] = e := by simp [MArr.cells, numel]
+  have hneg : ¬ i < 0 := by omega
+  have hmod : i.toNat % e = i.toNat := Nat.mod_eq_of_lt (by omega)
+  have hmax : max e (maxNat [i.toNat] + 1) = e := by
+    have : maxNat [i.toNat] = i.toNat := by simp [maxNat]
+    rw [this]; omega
+  simp only [MArr.write, MArr.resolveWrite, MArr.linIdx, MArr.linTargets, MArr.linTarget, hs, hcells,
+    List.mapM_cons, List.mapM_nil, bind, Except.bind, pure, Except.pure, hneg, if_false, h0, h1, and_self,
+    if_true, ind2sub, hmod, List.length_cons, List.length_nil]
+  have hc : ¬ ((0 + 1 = 0) ∨ (0 + 1 < 0 + 1) ∨ ([[i.toNat]].any fun r => r.length != 0 + 1) = true) := by simp
+  simp only [hc, if_false]
+  cases MArr.listValues rhs (0 + 1) with
+  | error err => rfl
+  | ok vals =>
+    simp only [List.range_succ, List.range_zero, List.nil_append, List.map_cons, List.map_nil,
+      List.getD_cons_zero, hmax]
+
+theorem Sparse.setItem_subs (S : Sparse α) (rows : List (List Nat)) (rhs : Rhs α)
+    (hr : rhs.isEmptyValue = false) : S.setItem (.subs rows) rhs = S.setSubscripts rows rhs := by
+  simp only [Sparse.setItem, hr, Bool.and_false, Bool.false_eq_true, ↓reduceIte]
+
+theorem Sparse.setItem_lin (S : Sparse α) (i : Int) (rhs : Rhs α) (hr : rhs.isEmptyValue = false) :
+    S.setItem (.lin i) rhs =
+      if S.shape.length = 1 ∧ 0 ≤ i then S.setSubscripts [[i.toNat]] rhs else .error .reject := by
+  simp only [Sparse.setItem, hr, Bool.and_false, Bool.false_eq_true, ↓reduceIte]
+
+theorem Sparse.setItem_linSlice (S : Sparse α) (a b c : Option Int) (rhs : Rhs α) (hr : rhs.isEmptyValue = false) :
+    S.setItem (.linSlice a b c) rhs =
+      (if S.shape.length = 1 then
+        (pySlice (S.shape.getD 0 0) a b c >>= fun l => S.setSubscripts (l.map fun i => [i]) rhs)
+      else .error .reject) := by
+  simp only [Sparse.setItem, hr, Bool.and_false, Bool.false_eq_true, ↓reduceIte]
+
+theorem Sparse.setItem_region_scalar (S : Sparse α) (parts : List RPart) (v : α) :
+    S.setItem (.region parts) (.scalar v) =
+      (Sparse.rewriteNeg S.shape parts >>= fun parts' => Sparse.setSubtensorScalar S parts' v) := by
+  simp only [Sparse.setItem, Rhs.isEmptyValue, Bool.and_false, Bool.false_eq_true, ↓reduceIte]
+
+theorem cells_1d (e : Nat) : MArr.cells [e] = e := by simp [MArr.cells, numel]
+
+theorem linTarget_1d (e a : Nat) (ha : a < e) : MArr.linTarget [e] (Int.ofNat a) = .ok [a] := by
+  unfold MArr.linTarget
+  simp only [cells_1d]
+  have h1 : ¬ (Int.ofNat a < 0) := by simp
+  rw [if_neg h1]
+  have h2 : 0 ≤ Int.ofNat a ∧ Int.ofNat a < (e : Int) := by constructor <;> simp <;> omega
+  rw [if_pos h2]
+  simp [ind2sub, Nat.mod_eq_of_lt ha]
+
+theorem linTargets_1d (e : Nat) (l : List Nat) (hl : ∀ i ∈ l, i < e) :
+    MArr.linTargets [e] (l.map Int.ofNat) = .ok (l.map fun i => [i]) := by
+  unfold MArr.linTargets
+  induction l with
+  | nil => rfl
+  | cons a l ih =>
+    have ha : a < e := hl a (by simp)
+    have ih' := ih (fun i hi => hl i (by simp [hi]))
+    rw [List.map_cons, List.mapM_cons, ih', linTarget_1d e a ha]
+    rfl
+
+theorem ssShapeSpec_1d (e : Nat) (rows : List (List Nat)) (h : ∀ r ∈ rows, r.getD 0 0 < e) (he : 0 < e) :
+    ssShapeSpec [e] 1 rows = [e] := by
+  unfold ssShapeSpec
+  have : maxNat (rows.map fun r => r.getD 0 0) ≤ e - 1 := by
+    rw [maxNat_le_iff]
+    intro y hy
+    obtain ⟨r, hr, rfl⟩ := List.mem_map.1 hy
+    have := h r hr
+    omega
+  simp only [List.range_succ, List.range_zero, List.nil_append, List.map_cons, List.map_nil, List.getD_cons_zero]
+  congr 1
+  omega
+
+/-- On a 1-way array a non-empty linear slice is a list of subscripts. -/
+theorem MArr.write_linSlice_eq_subs (m : MArr α) (e : Nat) (hs : m.shape = [e]) (a b c : Option Int)
+    (l : List Nat) (hl : pySlice e a b c = .ok l) (hne : l ≠ []) (rhs : Rhs α) :
+    m.write (.linSlice a b c) rhs = m.write (.subs (l.map fun i => [i])) rhs := by
+  have hlt := pySlice_lt hl
+  have hL : m.write (.linSlice a b c) rhs =
+      (match MArr.listValues rhs l.length with
+       | .error err => .error err
+       | .ok vals => .ok ((m.grow [e]).assignAll ((l.map fun i => [i]).zip vals))) := by
+    simp only [MArr.write, MArr.resolveWrite, MArr.linIdx, hs, cells_1d, hl, bind, Except.bind, pure, Except.pure]
+    rw [linTargets_1d e l hlt]
+    simp only [List.length_map]
+    cases MArr.listValues rhs l.length <;> rfl
+  rw [hL]
+  cases l with
+  | nil => exact absurd rfl hne
+  | cons x xs =>
+    have hx : x < e := hlt x (by simp)
+    rw [List.map_cons, MArr.write_subs_cons, hs]
+    have hc : ¬ (([x] : List Nat).length = 0 ∨ ([x] : List Nat).length < [e].length ∨
+        (([x] :: xs.map fun i => [i]).any fun r => r.length != ([x] : List Nat).length) = true) := by
+      simp
+    rw [if_neg hc]
+    have hshape : ssShapeSpec [e] ([x] : List Nat).length ([x] :: xs.map fun i => [i]) = [e] := by
+      apply ssShapeSpec_1d _ _ _ (by omega)
+      intro r hr
+      rcases List.mem_cons.1 hr with rfl | hr'
+      · simpa using hx
+      · obtain ⟨i, hi, rfl⟩ := List.mem_map.1 hr'
+        simpa using hlt i (by simp [hi])
+    rw [hshape]
+    simp only [List.length_cons, List.length_map]
+
 end ss
 
 end Pyttb
